@@ -290,6 +290,38 @@ func (x *NSGen) expr(depth int) *Node {
 	}
 	switch r.Intn(14) {
 	case 0:
+		if x.g.O.Fam == 7 && r.Chance(1, 3) {
+			// anonymous class: its parent, interfaces, constructor arguments and members are resolved; it declares no name
+			c := &Node{Kind: "StmtClass", Parts: parts(x.g.kw("class"))}
+			if r.Bool() {
+				as, ps := x.args()
+				c.Kids = append(c.Kids, list("Args", as))
+				c.Parts = append(c.Parts, ps...)
+			}
+			if r.Chance(2, 3) {
+				e := x.ref("class", "anon-extends")
+				c.Kids = append(c.Kids, one("Extends", e))
+				c.Parts = append(c.Parts, x.g.kw("extends"), e)
+			}
+			if r.Chance(2, 3) {
+				var is []*Node
+				for i, k := 0, r.Range(1, 2); i < k; i++ {
+					is = append(is, x.ref("class", "anon-implements"))
+				}
+				c.Kids = append(c.Kids, list("Implements", is))
+				c.Parts = append(c.Parts, parts(x.g.kw("implements"), sepList(is, ","))...)
+			}
+			var ss []*Node
+			if r.Bool() {
+				ss = append(ss, x.traitUse())
+			}
+			if r.Bool() && depth < 3 {
+				ss = append(ss, x.method())
+			}
+			c.Kids = append(c.Kids, list("Stmts", ss))
+			c.Parts = append(c.Parts, parts(t("{"), nodesToParts(ss), t("}"))...)
+			return &Node{Kind: "ExprNew", Kids: []Kid{one("Class", c)}, Parts: parts(x.g.kw("new"), c), Prec: precNew, Prefix: true}
+		}
 		cls := x.ref("class", "new")
 		as, ps := x.args()
 		return &Node{Kind: "ExprNew", Kids: []Kid{one("Class", cls), list("Args", as)}, Parts: parts(x.g.kw("new"), cls, ps), Prec: precNew, Prefix: true}
